@@ -288,7 +288,21 @@ def rule_comment(check):
                         x = hir.peel(x["recv"])
                         continue
                     break
-                out.append((tuple(chain), hir.def_path_of(hir.call_args(n)[1]) or hir.describe(hir.call_args(n)[1]), (hir.place(x) or "").split(".")[-1]))
+                base = (hir.place(x) or "").split(".")[-1]
+                lx = hir.local_of(x)
+                if lx and g is not f and g.bindings().get(lx[0], {}).get("origin", ("",))[0] == "param":
+                    # the text is a parameter of a helper: what is handed in at its call sites
+                    pi = g.bindings()[lx[0]]["origin"][1]
+                    segs = set()
+                    for caller in prog.flat(f):
+                        for cn in hir.calls_in(caller.body):
+                            if prog.resolve_local(cn) is g and pi < len(hir.call_args(cn)):
+                                segs.add((hir.place(hir.call_args(cn)[pi]) or "?").split(".")[-1])
+                    if len(segs) == 1:
+                        base = segs.pop()
+                import re as _re
+
+                out.append((tuple(chain), hir.def_path_of(hir.call_args(n)[1]) or hir.describe(hir.call_args(n)[1]), _re.sub(r"#\d+", "", base)))
         return sorted(set(out))
 
     def has_prefix_test(g, x):
@@ -315,6 +329,17 @@ def rule_comment(check):
         none = body.get("k") == "MethodCall" and body.get("method") == "is_none" and has_prefix_test(r, body["recv"])
         ok = neg or none
     check.expect(ok, R, R + "/retain-others", hir.loc(r.rec), "retain(|c| !is_source_map_comment(c)): other comments stay", "remove_source_map_comments does not keep exactly the other comments")
+
+
+def _wrapped_local(e):
+    """local inside Ok(..)/Some(..) wrappers"""
+    e = hir.peel(e)
+    for _ in range(3):
+        if e.get("k") == "Call" and len(e["args"]) == 1 and (hir.peel(e["f"]).get("res", {}).get("ctor_path") or "").split("::")[-1] in ("Ok", "Some"):
+            e = hir.peel(e["args"][0])
+        else:
+            break
+    return hir.local_of(e)
 
 
 def _traces_to_param(prog, pv, g, expr, e, idx, depth=0):
@@ -362,8 +387,11 @@ def rule_resolve(check):
         check.expect(rel and from_parent, R, R + "/relative-to-source-file", hir.loc(n), "relative URL joined to parent(file_path)", "a relative map URL is not resolved against the folder of the source file")
     absn = [(g, n) for g in prog.flat(e) for n in g.nodes() if n.get("k") == "If" and hir.is_call(hir.peel(n["cond"])) and hir.callee_name(hir.peel(n["cond"])) == "is_absolute"]
     for g, n in absn:
-        th = hir.peel(n["then"])
-        same = hir.local_of(th) and hir.local_of(th) == hir.local_of(hir.call_args(hir.peel(n["cond"]))[0])
+        from ..prov import value_exprs, return_exprs as _rets
+
+        recv = hir.local_of(hir.call_args(hir.peel(n["cond"]))[0])
+        outs = value_exprs(n["then"]) + [r_ for r_ in _rets(n["then"]) if r_ not in value_exprs(n["then"])]
+        same = bool(recv) and bool(outs) and all(hir.local_of(hir.peel_transparent(o_, extra=())) == recv or _wrapped_local(o_) == recv for o_ in outs)
         check.expect(bool(same), R, R + "/absolute-as-is", hir.loc(n), "absolute URL used as is", "an absolute map URL is altered")
     reads = [(g, n) for g, n in prog.flat_calls(e, name="read") if "FileReader" in ((n.get("callee") or {}).get("path", "") + (n.get("callee") or {}).get("trait", ""))]
     check.expect(len(reads) == 1 and hir.local_of(hir.call_args(reads[0][1])[1]) is not None, R, R + "/read-final-path", hir.loc(e.rec), "the resolved path is read through the FileReader", "the map file is not read through the FileReader from the resolved path")
